@@ -4,7 +4,6 @@ import (
 	"encoding/json"
 	"fmt"
 	"iter"
-	"math"
 	"slices"
 	"sort"
 	"strconv"
@@ -210,6 +209,16 @@ func (i pyInt) IsTruthy() bool {
 	return i != 0
 }
 
+// floorDiv is Python's //: the quotient rounded towards negative infinity, in integer arithmetic
+// (a detour through float64 is inexact beyond 2^53 and turns a zero divisor into a number).
+func floorDiv(i, o pyInt) pyInt {
+	q := i / o
+	if i%o != 0 && (i < 0) != (o < 0) {
+		q--
+	}
+	return q
+}
+
 // floorMod is Python's %: a non-zero result has the sign of the divisor (Go's % takes the sign of the dividend).
 func floorMod(i, o pyInt) pyInt {
 	m := i % o
@@ -232,7 +241,7 @@ func (i pyInt) Operator(operator Operator, operand pyObject) pyObject {
 		case Divide:
 			return i / o
 		case FloorDivide:
-			return newPyInt(int(math.Floor(float64(i) / float64(o))))
+			return floorDiv(i, o)
 		case LessThan:
 			return newPyBool(i < o)
 		case GreaterThan:
